@@ -508,7 +508,7 @@ func (s *State) Check(p *Plan, g *Got) error {
 			}
 		default:
 			if !Eq(now, s.Val[i]) {
-				why := "the operation is not destructive"
+				why := "the operation modifies no existing list"
 				if p.Mut != 0 {
 					why = "it cannot share cells with " + name(p.Op.A)
 				}
